@@ -58,6 +58,10 @@ GoalSnapHeldAcrossPersistAndClose ==
     Goal(Len(hist) > 0 /\ hist[Len(hist)].act = "CloseEnd" /\ (\E s \in 1..MaxSnaps : snaps[s].open)
          /\ \E i, j \in 1..Len(hist) : i < j /\ HistHas(i, "TakeSnapshot") /\ HistHas(j, "PersisterSwap"))
 
+\* the store has been reopened while a child collection holds persisted data
+GoalReopenedChildData ==
+    Goal(nre >= 1 /\ life = "open" /\ \E p \in Paths \ {""} : store[p].ex /\ \E k \in 1..NKeys : store[p].m[k].p)
+
 \* one behaviour per explored transition (exhaustive configurations)
 Edge == PrintT(<<"BEH", ToJson(hist')>>)
 
